@@ -1,5 +1,6 @@
+\* development cfg: DevFoci (a subset of the foci) with SmallSizes; not used by a registered check
 SPECIFICATION Spec
 CONSTANTS
   Foci <- DevFoci
-  Sizes <- ThoroughSizes
+  Sizes <- SmallSizes
 INVARIANTS RoundTrip ParenExact LayoutFree ParenNeeded ShapesOK SpansOK Export
